@@ -118,6 +118,26 @@ CHECKS = {
              "terminated transitions, repeated visits, stochastic successors).",
         ref="DESIGN.md §5 C14",
     ),
+    "C12": dict(
+        technique="runtime monitoring: differential oracle - the real loss / "
+                  "gradient routines versus independently written JAX reference "
+                  "objectives evaluated on the same real modules (values and "
+                  "gradient leaves), sign oracle for the temperature step",
+        text="Exploration over batches, weights of both signs, clip ranges, heads, "
+             "critic output shapes and batch sizes (N=1: same value or loud "
+             "rejection).",
+        ref="DESIGN.md §5 C12",
+    ),
+    "C13": dict(
+        technique="runtime monitoring: closed-form float64 oracles on the public "
+                  "head API incl. shape sweep and extreme parameters, "
+                  "standardised-noise invariance across heads for one key; in-loop "
+                  "event-log checker (one action source per step, greedy result "
+                  "maximises the current estimate, 6-sigma exploration band)",
+        text="Exploration over heads x shapes x extreme parameters, greedy "
+             "policies with ties, and real DQN-family / tabular training runs.",
+        ref="DESIGN.md §5 C13",
+    ),
 }
 
 NOT_YET = {}
